@@ -364,8 +364,62 @@ def task_n4(t):
     return rep
 
 
+def task_wide(t):
+    """Operands with DIFFERENT small supports inside a manager with 8 declared variables:
+    u over every 2-subset A of the levels, v over every 2-subset B (interleaving, nested,
+    disjoint, equal), all 16 x 16 functions, every connective and ite."""
+    _, si, ns, focus = t
+    rep = run.Report()
+    rec = _Rec(rep)
+    nvars = 8
+    bdd, decl = sweep.wide_manager(nvars, env.SEED)
+    subs = sweep.wide_subsets(nvars, 2)
+    pairs = [(a, b) for a in subs for b in subs]
+    mine = sweep.shard(pairs, ns)[si]
+    for k, (A, B) in enumerate(mine):
+        if focus is not None and [list(A), list(B)] != list(focus):
+            continue
+        na = tuple(decl[i] for i in A)
+        nb = tuple(decl[i] for i in B)
+        U = Universe(tuple(dict.fromkeys(na + nb)))
+        model = _model(U)
+        one = [(syms[k % len(syms)], model[g]) for g, syms in BINARY.items()]
+        b = sweep.Builder(bdd, U)
+        fa_ = U.all_functions(na)
+        fb_ = U.all_functions(nb)
+        F = U.full
+        case = dict(kind='wide', task=t[:-1] + ([list(A), list(B)],), A=list(A), B=list(B))
+        try:
+            for fu in fa_:
+                u = b.verified(fu)
+                bdd.incref(u)
+                for fv in fb_:
+                    v = b.verified(fv)
+                    for sym, fn in one:
+                        if b.den(bdd.apply(sym, u, v)) != fn(fu, fv):
+                            rec('wide:' + sym, 'apply is wrong for operands with different '
+                                'supports in a wide manager', dict(case, op=sym, u=U.fmt(fu),
+                                                                   v=U.fmt(fv)))
+                    if b.den(bdd.ite(v, u, -u)) != U.ite(fv, fu, F ^ fu):
+                        rec('wide:ite', 'ite is wrong in a wide manager',
+                            dict(case, u=U.fmt(fu), v=U.fmt(fv)))
+                    rep.add('evaluations', len(one) + 1)
+                    if fu not in (0, F) and fv not in (0, F):
+                        rep.add('nontrivial', len(one) + 1)
+                bdd.decref(u)
+        except Violation as e:
+            rec('wide-broken:' + e.what, e.what, case)
+        except Exception as e:  # noqa
+            rec('wide-exception:' + type(e).__name__, 'raised %r' % (e,), case)
+        if k % 16 == 15:
+            bdd.collect_garbage()
+    if si == 0 and focus is None:
+        rep.sample(dict(kind='wide manager', declared=nvars, A=list(mine[3][0]), B=list(mine[3][1])))
+    return rep
+
+
 TASKS = dict(pairs=task_pairs, ite=task_ite, sparse=task_sparse, autoref=task_autoref,
-             n4=task_n4)
+             n4=task_n4, wide=task_wide)
 
 
 def _dispatch(t):
@@ -373,7 +427,7 @@ def _dispatch(t):
 
 
 def plan(tier):
-    ts = []
+    ts = [('wide', si, 16, None) for si in range(16)]
     n = 3
     no = 6
     if tier == 'quick':
@@ -491,6 +545,8 @@ def _rerun_task(case):
         t = ('autoref', case['n'], case['order'], 0, 1)
     elif kind == 'n4':
         t = ('n4', case['order'], 0, 1)
+    elif kind == 'wide':
+        t = sweep._tuplify(case['task'])
     else:
         return None
     rep = _dispatch(t)
